@@ -14,9 +14,28 @@ def family_task(task):
     """task: name, seed, n, cfg, picker (module-level function name in this module's registry), opts"""
     rnd = random.Random(task['seed'])
     g = S.mk_group(dict(task, randmem=task['seed']) if task.get('opts', {}).get('data_ptrs') else task)
+    for k in range(task['n']):
+        _family_event(g, rnd, task, k)
+    return [g]
+
+
+def mixed_task(task):
+    """two instances with different architecture versions living in ONE process, used alternately: whatever the
+    implementation keeps process-wide (configuration lookups, caches) must not leak from one into the other"""
+    rnd = random.Random(task['seed'])
+    gs = []
+    for name, over in (('v6', dict(arch_version=6)), ('v7', dict(arch_version=7))):
+        t = dict(task, name='%s-mixed-%s' % (task['picker'], name), cfg=over)
+        gs.append(S.mk_group(dict(t, randmem=task['seed']) if task.get('opts', {}).get('data_ptrs') else t))
+    for k in range(task['n']):
+        _family_event(gs[k % 2], rnd, task, k)
+    return gs
+
+
+def _family_event(g, rnd, task, k):
     pick = PICKERS[task['picker']]
     opts = task.get('opts', {})
-    for k in range(task['n']):
+    if True:
         thumb, w, name = pick(rnd, g.cfg)
         itpos = rnd.choice([0, 0, 0, 1, 2]) if thumb else 0
         st, pc = S.prep(g, rnd, task, thumb, itpos, k)
@@ -56,7 +75,6 @@ def family_task(task):
         else:
             C.put_instr(st, pc, w, thumb)
         g.add(st, {'n': 'Step'}, meta={'gen': name, 'word': w, 'thumb': thumb})
-    return [g]
 
 
 def pick_dp(rnd, cfg):
@@ -292,6 +310,8 @@ def run_family(ctx, picker, n_per_group, opts, clause_filter, configs=None, tags
             tasks.append(dict(name='%s-%s-%d' % (picker, name, j), seed=ctx.seed * 1000 + ci * 50 + j, n=n_per_group // per,
                               cfg=over, picker=picker, opts=opts, modes='all'))
     groups = C.parallel(family_task, tasks) + list(extra_groups)
+    groups += C.parallel(mixed_task, [dict(name='%s-mixed' % picker, seed=ctx.seed * 1000 + 977, n=max(200, n_per_group // 4), picker=picker,
+                                           opts=opts, modes='all')])
     res = C.judge_groups(ctx, groups, clause_filter, rnd=rnd,
                          tags_of=tags_of or (lambda g, e, v: {'arch': g.cfg['arch_version'], 'enc': v['path'].split(':')[-1],
                                                                'gen': g.meta.get(e['id'], {}).get('gen')}))
